@@ -24,7 +24,13 @@ type slot struct {
 
 // fill populates every value slot reachable from v (struct fields, slices, helper structs of package ir) with a
 // distinct fresh *ir.Block (a block is acceptable wherever a value.Value is stored, and Succs() needs blocks).
-func fill(v reflect.Value, path string, slots *[]slot, n *int) {
+// sparse: the FIRST element of every list of helper structs gets EMPTY inner lists (`[ "deopt"(), "gc-live"(i32 %x) ]`: an empty bundle before a
+// non-empty one); the second variant of every row is analysed in this shape
+var sparse bool
+
+func fill(v reflect.Value, path string, slots *[]slot, n *int) { fillIn(v, path, slots, n, false) }
+
+func fillIn(v reflect.Value, path string, slots *[]slot, n *int, emptyLists bool) {
 	switch v.Kind() {
 	case reflect.Interface:
 		if v.Type() == valueType {
@@ -36,15 +42,19 @@ func fill(v reflect.Value, path string, slots *[]slot, n *int) {
 	case reflect.Slice:
 		et := v.Type().Elem()
 		if et == valueType || (et.Kind() == reflect.Ptr && et.Elem().Kind() == reflect.Struct && et.Elem().PkgPath() == "github.com/llir/llvm/ir" && isHelper(et.Elem().Name())) {
+			if emptyLists && et == valueType {
+				v.Set(reflect.MakeSlice(v.Type(), 0, 0))
+				return
+			}
 			s := reflect.MakeSlice(v.Type(), 2, 2)
 			v.Set(s)
 			for i := 0; i < 2; i++ {
 				e := v.Index(i)
 				if et.Kind() == reflect.Ptr {
 					e.Set(reflect.New(et.Elem()))
-					fill(e.Elem(), fmt.Sprintf("%s[%d]", path, i), slots, n)
+					fillIn(e.Elem(), fmt.Sprintf("%s[%d]", path, i), slots, n, sparse && i == 0)
 				} else {
-					fill(e, fmt.Sprintf("%s[%d]", path, i), slots, n)
+					fillIn(e, fmt.Sprintf("%s[%d]", path, i), slots, n, emptyLists)
 				}
 			}
 		}
@@ -62,7 +72,7 @@ func fill(v reflect.Value, path string, slots *[]slot, n *int) {
 			if f.Anonymous {
 				continue // LocalIdent etc.
 			}
-			fill(v.Field(i), p, slots, n)
+			fillIn(v.Field(i), p, slots, n, emptyLists)
 		}
 	}
 }
@@ -104,6 +114,9 @@ func Analyse(x interface{}) Row { return AnalyseWith(x, false) }
 
 // AnalyseWith: with flags, every exported boolean field of the instance is set before the views are taken.
 func AnalyseWith(x interface{}, flags bool) Row {
+	// the variant with the boolean fields set is also the one analysed in the sparse shape
+	sparse = flags
+	defer func() { sparse = false }()
 	t := reflect.TypeOf(x).Elem()
 	inst := reflect.New(t)
 	var slots []slot
